@@ -76,6 +76,12 @@ class Built:
 
 def build(cfg, tmpdir=None):
     """Elaborate the SoC described by cfg.  Raises SoCError (build refused) like the real flow would."""
+    import io, contextlib
+    with contextlib.redirect_stdout(io.StringIO()):
+        return _build(cfg, tmpdir)
+
+
+def _build(cfg, tmpdir=None):
     bus_std, bus_dw = cfg["bus"], cfg["bus_dw"]
     mem_map = {"csr": cfg.get("csr_origin", 0)}
     cls = type("C14SoC", (SoCMini,), {"mem_map": dict(mem_map), "csr_map": dict(cfg.get("csr_map", {}))})
@@ -362,6 +368,12 @@ class Tb:
             self.enable_sigs += [rmap.bus.we, rmap.bus.re]
         for name, memory, mapaddr, mmap in self.srams:
             self.enable_sigs += [mmap.bus.we, mmap.bus.re]
+        self.slave_sel = []     # (name, [signals whose assertion means "this slave is addressed"])
+        for name, itf in soc.bus.slaves.items():
+            if hasattr(itf, "cyc"):
+                self.slave_sel.append((name, [itf.cyc]))
+            else:
+                self.slave_sel.append((name, [itf.aw.valid, itf.ar.valid, itf.w.valid]))
         self.hits = None
         self.cycles = 0
         self._init_master()
@@ -385,6 +397,9 @@ class Tb:
         if self.hits is None:
             return
         ev = self.nl.ev
+        for name, sigs in self.slave_sel:
+            if any(ev.eval(x) for x in sigs):
+                self.hits["s"].add(name)
         # the strobes of a bank are gated by its own bus.we / bus.re: scan the simple CSRs only in cycles in which
         # some bank (or CSR memory) sees a write or read enable
         if not any(ev.eval(s_) for s_ in self.enable_sigs):
@@ -415,7 +430,7 @@ class Tb:
     def access(self, addr, we, dat=0, size=4):
         """One aligned 32-bit access at byte address `addr`.  Returns (read value, hits)."""
         assert addr % 4 == 0
-        self.hits = {"w": set(), "r": set(), "mw": set(), "mr": set()}
+        self.hits = {"w": set(), "r": set(), "mw": set(), "mr": set(), "s": set()}
         lane = self._lane(addr)
         nl, m = self.nl, self.m
         val = None
@@ -650,7 +665,7 @@ def check_soc(cfg, seed=0, max_regs=None, max_words=None):
 
     def alarm(text, *tags):
         """An oracle alarm; attributed to the first finding region in `tags` the configuration lies in."""
-        tag = next((t for t in tags if t in inreg), None)
+        tag = next((t for t in tags if t is not None and t in inreg), None)
         rec["alarms"].append((tag, text))
 
     # ---- static agreement of the exports (oracle: the elaborated objects) and with the Lean exportAddrs ------
@@ -950,18 +965,40 @@ def check_soc(cfg, seed=0, max_regs=None, max_words=None):
         count("reads")
         count("nontrivial", 1 if nw > 1 or r.kind == "storage" else 0)
 
-    # ---- CSR memory windows ---------------------------------------------------------------------------------
+    # ---- CSR memory windows: the whole published window, and the page register of memories deeper than a page --
+    W = paging // 4
     for R in regions:
         if R.mem is None:
             continue
         mem, mmap = R.mem
         base = ex.json["csr_bases"][R.name]
         depth = mem.depth
-        for i in sorted({0, depth - 1, rng.randrange(depth), rng.randrange(depth)}):
+        paged = depth > W
+        preg = R.name + "_page"
+        has_preg = preg in ex.json["csr_registers"]
+        if has_preg != paged:
+            alarm("memory %s of %d words in a page of %d words: page register %s" % (
+                R.name, depth, W, "published although the memory fits the page" if has_preg else "missing"))
+        top = depth - 1
+        words = {0, 1, top, min(depth, W) - 1, min(depth, W) // 2 - 1, min(depth, W) // 2, rng.randrange(depth), rng.randrange(depth)}
+        if paged:
+            words |= {W - 1, W, W + 1, top, rng.randrange(W, depth)}
+        count("mem_windows_paged" if paged else "mem_windows_exact_page" if depth == W else "mem_windows_small")
+        for w in sorted(x for x in words if 0 <= x < depth):
+            pv = w // W
+            if paged and has_preg:
+                pstores = []
+                if preg in ex.header.writers:
+                    ex.header.write(preg, pv, lambda a, x: pstores.append((a, x)))
+                for a, x in pstores:
+                    do_access(a, 1, x)
+            elif w >= W:
+                continue
+            a = base + 4 * (w % W)
             v = rng.getrandbits(32)
             before = [tb.mem_word(mem, k) for k in range(depth)]
-            val, hits = do_access(base + 4 * i, 1, v)
-            what = "store to memory %s word %d @0x%x" % (R.name, i, base + 4 * i)
+            val, hits = do_access(a, 1, v)
+            what = "store to memory %s word %d (page %d) @0x%x" % (R.name, w, pv, a)
             if hits is None:
                 alarm(what + ": the bus hangs")
                 continue
@@ -969,20 +1006,60 @@ def check_soc(cfg, seed=0, max_regs=None, max_words=None):
             if got != {"mw:" + R.name}:
                 alarm("%s: strobed %s" % (what, sorted(got)), R_CSR8)
             after = [tb.mem_word(mem, k) for k in range(depth)]
-            want = list(before)
-            want[i] = v & ((1 << mem.width) - 1)
-            if after != want:
-                alarm("%s: memory content differs from 'word %d := 0x%x only'" % (what, i, want[i]), R_CSR8)
-            val, hits = do_access(base + 4 * i, 0)
+            changed = [k for k in range(depth) if after[k] != before[k]]
+            want_v = v & ((1 << mem.width) - 1)
+            if after[w] != want_v or any(k != w for k in changed):
+                alarm("%s: memory word %d should become 0x%x; words changed: %s" % (what, w, want_v, changed[:4]), R_CSR8)
+            val, hits = do_access(a, 0)
             if hits is None:
                 alarm("load from memory %s: the bus hangs" % R.name)
-            elif val != after[i] or set(tb.name_hits(hits)) != {"mr:" + R.name}:
+            elif val != after[w] or set(tb.name_hits(hits)) != {"mr:" + R.name}:
                 alarm("load from memory %s word %d returns 0x%x (holds 0x%x), strobes %s" % (
-                    R.name, i, val or 0, after[i], tb.name_hits(hits)), R_CSR8,
-                    *((R_AXIL_RD,) if (set(tb.name_hits(hits)) > {"mr:" + R.name} and val == after[i]) else ()))
+                    R.name, w, val or 0, after[w], tb.name_hits(hits)), R_CSR8,
+                    *((R_AXIL_RD,) if (set(tb.name_hits(hits)) > {"mr:" + R.name} and val == after[w]) else ()))
             if model_regs:
-                rec["lean"].append(("memsel %d %d %d %d" % (paging, R.page, depth, (base + 4 * i - csr_base) // 4), str(i)))
+                pbits = len(mmap._page.storage) if mmap._page is not None else 0
+                real_pv = tb.get(mmap._page.storage) if mmap._page is not None else 0
+                tgt = changed[0] if len(changed) == 1 else (w if not changed and after[w] == want_v else None)
+                if tgt is not None:
+                    rec["lean"].append(("sramsel %d %d %d %d %d" % (paging, R.page, depth, real_pv, (a - csr_base) // 4),
+                                        "%d %d" % (pbits, tgt)))
             count("mem_accesses", 2)
+
+    # ---- memory regions: every published region answers through its own slave and no other -----------------
+    pub = {n: (m["base"], m["size"]) for n, m in ex.json["memories"].items()}
+
+    def owner(addr):
+        return [n for n, (b0, sz) in pub.items() if b0 <= addr < b0 + sz]
+    for name, (b0, sz) in pub.items():
+        if name not in soc.bus.slaves:
+            continue
+        pow2 = 1 << (sz - 1).bit_length()
+        probes_ = [(b0, "first word"), (b0 + sz - 4, "last word")]
+        if pow2 != sz:
+            probes_.append((b0 + sz, "first word after the region"))
+        for a, what in ((b0 - 4, "word before the region"), (b0 + pow2, "word after the decoded range")):
+            if a >= 0 and owner(a):
+                probes_.append((a, what))
+        for a, what in probes_:
+            if name == "csr" and a - b0 >= (1 << (aw + 2)):
+                continue
+            val, hits = do_access(a, 0)
+            own = owner(a)
+            if hits is None:
+                if own:
+                    alarm("load @0x%x (%s of region %s): the bus hangs" % (a, what, name))
+                continue
+            sel = sorted(hits["s"])
+            if own and sel != own:
+                alarm("load @0x%x (%s of region %s, published in %s): slaves addressed %s" % (a, what, name, own, sel),
+                      R_AXIL_RD if False else None)
+            elif not own and len(sel) > 1:
+                alarm("load @0x%x (%s of region %s): several slaves addressed %s" % (a, what, name, sel))
+            count("region_probes")
+        reg = soc.bus.regions[name]
+        if (reg.origin, reg.size) != (b0, sz):
+            alarm("published region %s (0x%x, 0x%x) differs from the decoder's SoCRegion (0x%x, 0x%x)" % (name, b0, sz, reg.origin, reg.size))
 
     # ---- a few addresses of the CSR window that no export mentions: nothing may answer ------------------------
     exported = set()
@@ -1076,7 +1153,7 @@ def gen_reg(rng, k, arch):
     return r
 
 
-def gen_periph(rng, name, csr_dw, max_regs=6, deck=None):
+def gen_periph(rng, name, csr_dw, max_regs=6, deck=None, paging=None, mem_prob=0.25):
     regs = []
     for k in range(rng.randint(1, max_regs)):
         arch = deck.pop() if deck else rng.choice(ARCHETYPES)
@@ -1087,8 +1164,13 @@ def gen_periph(rng, name, csr_dw, max_regs=6, deck=None):
         regs[-1]["n"] = len(regs) - 1 + rng.randint(0, 2)
         if regs[-1]["n"] == len(regs):      # `_sort_gathered_items` indexes out of range for n == len(items)
             regs[-1]["n"] += 1
-    if rng.random() < 0.25:
-        p["mems"] = [{"name": "m0", "width": rng.randint(1, csr_dw), "depth": rng.choice((2, 4, 5, 16, 33, 64))}]
+    if rng.random() < mem_prob:
+        depth = rng.choice((2, 4, 5, 16, 33, 64))
+        if paging is not None and rng.random() < 0.5:
+            W = paging // 4
+            # depths around the page capacity: exactly one page, one word more, and paged memories (W <= 512 only)
+            depth = rng.choice((W, W, W - 1) + ((W + 1, 2 * W, W + W // 2, 3 * W) if W <= 512 else ()))
+        p["mems"] = [{"name": "m0", "width": rng.randint(1, csr_dw), "depth": depth}]
     return p
 
 
@@ -1114,7 +1196,8 @@ def gen_cfg(rng, **fixed):
     deck = list(ARCHETYPES)
     rng.shuffle(deck)
     for k in range(rng.randint(2, 4)):
-        p = gen_periph(rng, "p%d" % k, cfg["csr_dw"], fixed.get("max_regs", 6), deck)
+        p = gen_periph(rng, "p%d" % k, cfg["csr_dw"], fixed.get("max_regs", 6), deck, paging=cfg["paging"],
+                       mem_prob=fixed.get("mem_prob", 0.25))
         if rng.random() < 0.3:
             loc = rng.choice((nlocs - 1, rng.randrange(nlocs), rng.randrange(min(nlocs, 8))))
             if loc not in used:
@@ -1135,12 +1218,20 @@ def gen_cfg(rng, **fixed):
     rams = []
     org = 0x10000000
     for k in range(rng.choice((0, 1, 1, 2))):
-        r = {"name": "ram%d" % k, "origin": org, "size": rng.choice((0x40, 0x80, 0x100, 0x400))}
+        r = {"name": "ram%d" % k, "origin": org, "size": rng.choice((0x40, 0x80, 0x100, 0x400, 0xc0, 0x180, 0x300))}
         if rng.random() < 0.6:
             n = rng.randint(1, min(70, r["size"] - 1))
             r["init"] = {"bytes": [rng.getrandbits(8) for _ in range(n)], "endianness": rng.choice(("little", "big"))}
         rams.append(r)
         org += 0x10000000
+    if rng.random() < fixed.get("shadow_prob", 0.35) and cfg["csr_origin"] >= 0x1000:
+        # a non-power-of-two slave at the bottom of the map followed by automatically placed ones: the allocator must
+        # keep them out of the power-of-two range the first one's decoder answers to
+        big, small = rng.choice(((0x180, 0x80), (0x300, 0x100), (0xc0, 0x40), (0x180, 0x40), (0x280, 0x80)))
+        rams.append({"name": "lo0", "origin": 0, "size": big})
+        rams.append({"name": "lo1", "origin": None, "size": small})
+        if rng.random() < 0.5:
+            rams.append({"name": "lo2", "origin": None, "size": rng.choice((0x40, 0xc0))})
     cfg["rams"] = rams
     if rng.random() < 0.25:
         cfg["second_master"] = True
@@ -1266,23 +1357,29 @@ def sweep_case(args):
     src = LiteXModule()
     banks = []
     loc = {}
+    npg = (1 << aw) // (paging // 4)
+    free = [x for x in range(npg) if x not in pages]
+    mem_specs = []
     for k, page in enumerate(pages):
-        p = gen_periph(rng, "p%d" % k, bw, max_regs=5)
-        p.pop("mems", None)
+        p = gen_periph(rng, "p%d" % k, bw, max_regs=5, paging=paging if paging <= 0x200 else None,
+                       mem_prob=0.5 if free else 0.0)
         for r in p["regs"]:
             r.pop("n", None)
+        if p.get("mems"):
+            loc["p%d_m0" % k] = free.pop(rng.randrange(len(free)))
         if rng.random() < 0.4:
             # a bank that (nearly) fills its page: one wide register
-            have = sum(nwords(bw, r["size"]) for r in p["regs"])
+            have = sum(nwords(bw, r["size"]) for r in p["regs"]) + (1 if p.get("mems") else 0)
             words = paging // 4 - have - rng.choice((0, 0, 1, 5))
             if words > 0:
                 p["regs"].insert(rng.randrange(len(p["regs"]) + 1),
                                  {"kind": rng.choice(("status", "storage")), "name": "big", "size": words * bw - rng.randrange(bw)})
         setattr(src, p["name"], make_periph(p))
         loc[p["name"]] = page
-        banks.append((page, [r["size"] for r in p["regs"]]))
-    ba = csr_bus.CSRBankArray(src, address_map=lambda name, mem: loc[name], data_width=bw, address_width=aw,
-                              paging=paging, ordering=rng.choice(("big", "little")))
+    import io, contextlib
+    with contextlib.redirect_stdout(io.StringIO()):
+        ba = csr_bus.CSRBankArray(src, address_map=lambda name, mem: loc[name if mem is None else name + "_" + mem.name_override],
+                                  data_width=bw, address_width=aw, paging=paging, ordering=rng.choice(("big", "little")))
     master = csr_bus.Interface(data_width=bw, address_width=aw)
     top = Module()
     top.submodules += src, ba, csr_bus.Interconnect(master, ba.get_buses())
@@ -1295,6 +1392,15 @@ def sweep_case(args):
         blist.append(" ".join([str(mapaddr)] + [str(c.size) for c in csrs]))
         for i, c in enumerate(rmap.simple_csrs):
             simple.append((order[name], i, c.re, c.we))
+    mems = []
+    for k, (name, memory, mapaddr, mmap) in enumerate(ba.srams):
+        pv = 0
+        if mmap._page is not None:
+            pv = rng.randrange(1 << len(mmap._page.storage))
+            nl.set(mmap._page.storage, pv)
+        port = [pt for pt in memory.ports if pt.we is not None][0]
+        mems.append((k, port))
+        blist.append("M %d %d %d" % (mapaddr, memory.depth, pv))
     out = []
     nl.set(master.we, 1)
     nl.set(master.re, 1)
@@ -1309,6 +1415,9 @@ def sweep_case(args):
                     out.append("%d:%d:%d:half" % (adr, b_, i))
                 else:
                     out.append("%d:%d:%d" % (adr, b_, i))
+        for k, port in mems:
+            if ev.eval(port.we):
+                out.append("%d:M%d:%d" % (adr, k, ev.eval(port.adr) & ((1 << len(port.adr)) - 1)))
     line = "sweep %d %d %d ; %s" % (bw, aw, paging, " ; ".join(blist))
     return {"line": line, "real": " ".join(out) or "-", "addresses": 1 << aw, "simple": len(simple),
             "input": {"kind": "sweep", "seed": seed}}
